@@ -8,10 +8,14 @@ from mc.engine import hbfs
 from mc.engine.report import Violation
 from mc.engine.seams import Canon, public_snapshot, new_model
 
+import atexit
 import logging
+import os
+import shutil
+import tempfile
 
 import ECAgent.Core as Core
-from ECAgent.Collectors import AgentCollector
+from ECAgent.Collectors import AgentCollector, FileCollector
 
 POS = {'first': 2, 'mid': 0, 'last': -2, 'none': None}
 TCS = [0, 1, 2]
@@ -40,6 +44,28 @@ class World:
 
 class Halt(Exception):
     pass
+
+
+_SCRATCH = {}
+
+
+def _scratch_dir():
+    """One scratch directory per harness process (removed at exit) for the file collector's output."""
+    pid = os.getpid()
+    if pid not in _SCRATCH:
+        d = tempfile.mkdtemp(prefix='c06-')
+        _SCRATCH.clear()
+        _SCRATCH[pid] = d
+        atexit.register(shutil.rmtree, d, ignore_errors=True)
+    return _SCRATCH[pid]
+
+
+def _read(path):
+    try:
+        with open(path) as f:
+            return f.read()
+    except FileNotFoundError:
+        return ''
 
 
 class Harness:
@@ -103,8 +129,20 @@ class Harness:
         ag = Core.Agent('ag', m)
         m.environment.add_agent(ag)
         w.objs['ac'] = LogCollector(m, lambda a: 1, id='ac', **kw)        # default collector priority (-1)
+
+        class LogFile(FileCollector):
+            """A buffering file collector (flushes every third collection): it is a system like any other."""
+
+            def collect(self):
+                log.append(self.id)
+                self.records.append(f't{self.model.systems.timestep};')
+
+        w.path = os.path.join(_scratch_dir(), 'fc.txt')
+        if os.path.exists(w.path):
+            os.remove(w.path)
+        w.objs['fc'] = LogFile('fc', m, w.path, write_count=2, **kw)
         # registration: the completer first, so that for equal priority it precedes the recorder ('mid')
-        for key in (['cp'] if 'cp' in w.objs else []) + [k for k, _ in RECS] + (['cp2'] if self.second else []) + ['ac']:
+        for key in (['cp'] if 'cp' in w.objs else []) + [k for k, _ in RECS] + (['cp2'] if self.second else []) + ['ac', 'fc']:
             self._register(w, key)
         w.running = True
         w.t = 0
@@ -157,11 +195,15 @@ class Harness:
         if kind == 'complete':
             n0 = len(w.log)
             recs = len(w.objs['ac'].records)
+            held, text = list(w.objs['fc'].records), _read(w.path)
             m.complete()
             w.running = False
             if len(w.log) != n0 or len(w.objs['ac'].records) != recs:
                 raise Violation('marking the model complete made a system run / a collector collect',
                                 expected=[], observed=w.log[n0:])
+            if list(w.objs['fc'].records) != held or _read(w.path) != text:
+                raise Violation('marking the model complete made the file collector collect or write',
+                                expected=[held, text], observed=[list(w.objs['fc'].records), _read(w.path)])
             self._status(w, op)
             return
         n = op[1] if kind == 'execute' else 1
@@ -183,6 +225,27 @@ class Harness:
             if kind == 'xs_throw' and raised is None:
                 raise Violation('execute_systems(throw_error=True) on a complete model did not raise',
                                 expected='ModelCompleteError', observed='no exception')
+            if kind == 'xs_throw':
+                # the same request from other calling contexts: inside a generator-driven loop and through map() -
+                # the documented error arrives there as well (it is not swallowed as "end of iteration")
+                def driver():
+                    yield 0
+                    m.systems.execute_systems(throw_error=True)
+                    yield 1
+                g = driver()
+                next(g)
+                for how, call in (('a generator-driven loop', lambda: next(g)),
+                                  ('map()', lambda: list(map(lambda mm: mm.systems.execute_systems(throw_error=True), [m, m])))):
+                    try:
+                        got = call()
+                    except Core.ModelCompleteError:
+                        continue
+                    except BaseException as e:      # noqa
+                        raise Violation(f'execute_systems(throw_error=True) on a complete model, called from {how}: the '
+                                        f'caller gets {type(e).__name__} instead of ModelCompleteError',
+                                        expected='ModelCompleteError', observed=f'{type(e).__name__}: {e}')
+                    raise Violation(f'execute_systems(throw_error=True) on a complete model, called from {how}: no error '
+                                    f'reached the caller', expected='ModelCompleteError', observed=repr(got))
             if kind != 'xs_throw' and raised is not None:
                 raise Violation(f'{op} on a complete model raised ModelCompleteError without being asked to')
             if len(w.log) != n0:
